@@ -125,6 +125,12 @@ def _unwrap(line):
 
 
 _FLIPS = [(': true', ': false'), (':true', ':false'), ('"ok"', '"err"'), ('"t": "nodes"', '"t": "str"'), ('"t":"nodes"', '"t":"str"')]
+# what a recording says about the property itself (tried first for that property; generic flips otherwise)
+_PROP_FLIPS = {
+    "C02": [('"parse":"err"', '"parse":"ok"'), ('"parse": "err"', '"parse": "ok"')],       # an ill-formed text "accepted"
+    "C04": [('"eq":true', '"eq":false'), ('"eq": true', '"eq": false')],                       # re-parsed document "differs"
+}
+_PROP_BUMP = {"C12": r'"par":\[\d+,(\d+)'}     # the parent the second pool node reports, in the post state
 
 
 def corrupt_trace(path, every):
@@ -136,6 +142,21 @@ def corrupt_trace(path, every):
         for i, line in enumerate(f):
             if i >= 1 and (i - 1) % every == 0:
                 new = None
+                prop = os.environ.get("VERIF_SELFTEST_PROP", "")
+                for a, b in _PROP_FLIPS.get(prop, []):
+                    if a in line:
+                        new = line.replace(a, b, 1)
+                        break
+                if new is None and prop in _PROP_BUMP:
+                    m = list(re.finditer(_PROP_BUMP[prop], line))
+                    if m:
+                        k = m[0]          # keys are sorted: "post" comes before "pre"
+                        new = line[:k.start(1)] + str(int(k.group(1)) + 1) + line[k.end(1):]
+                if new is not None:
+                    line = new
+                    n += 1
+                    g.write(line)
+                    continue
                 for a, b in _FLIPS:
                     if a in line:
                         new = line.replace(a, b, 1)
